@@ -52,7 +52,7 @@ Proof. exact scase_sig_model. Qed.
 (* a simple bind (version >= 2) succeeds iff it is the anonymous bind or the entry
    "name:password" (name as evaluated: cut at ',', cn=/sn= stripped) is in the list -
    whatever the session state; otherwise the code is invalidCredentials or
-   unwillingToPerform; the event carries the evaluated name and the presented password *)
+   unwillingToPerform *)
 Theorem C12_ldap_bind_success_iff : forall creds login ver dn pw,
   2 <= ver ->
   exists login' code,
@@ -62,10 +62,25 @@ Theorem C12_ldap_bind_success_iff : forall creds login ver dn pw,
     (code = RES_SUCCESS \/ code = RES_INVALID_CRED \/ code = RES_UNWILLING).
 Proof. exact ldap_bind_spec. Qed.
 
+(* an old protocol version is refused with protocolError, after the evaluated name and the
+   presented password have been recorded *)
 Theorem C12_ldap_old_version_is_protocol_error : forall creds login ver dn pw,
   ver < 2 ->
-  ldap_bind creds login ver dn pw = (login, Some (1%N, RES_PROTOCOL), mkLE T_BIND None None).
+  ldap_bind creds login ver dn pw =
+    (login, Some (1%N, RES_PROTOCOL), mkLE T_BIND (Some (norm_dn dn)) (Some pw)).
 Proof. exact ldap_bind_old_version. Qed.
+
+(* every simple bind - any version, any outcome, any session state - produces the event with
+   the name as evaluated and the password as presented ... *)
+Theorem C12_ldap_bind_event_fields : forall creds login ver dn pw,
+  snd (ldap_bind creds login ver dn pw) = mkLE T_BIND (Some (norm_dn dn)) (Some pw).
+Proof. exact ldap_bind_event. Qed.
+
+(* ... and so does every simple bind of every request history *)
+Theorem C12_ldap_history_bind_event_fields : forall creds reqs login ver dn pw rp ev,
+  In (LBind ver dn pw, rp, ev) (snd (ldap_run creds login reqs)) ->
+  ev = mkLE T_BIND (Some (norm_dn dn)) (Some pw).
+Proof. exact ldap_run_bind_events. Qed.
 
 (* gating: after ANY request history on a fresh connection, modify/add/delete/modifyDN/compare
    is answered with success only if an earlier bind on this connection was answered with
@@ -83,24 +98,12 @@ Theorem C12_ldap_entries_without_colon_ignored : forall creds reqs login,
   ldap_run (filter has_colon creds) login reqs = ldap_run creds login reqs.
 Proof. exact ldap_run_filter. Qed.
 
-(* outside the finding class (no bind with version < 2) the executable check accepts the
-   model's output: replies, gating and event fields *)
-Theorem C12_ldap_check_accepts_model_outside_finding : forall id creds reqs,
-  forallb bind_version_ok reqs = true ->
+(* the executable check (decisions, gating on observed codes, event fields of every bind of
+   any version) accepts the model's output for every credential list and request history *)
+Theorem C12_ldap_check_accepts_model : forall id creds reqs,
   let out := ldap_session creds reqs in
   lcase_sig (mkLCase id creds reqs (map (fun x => snd (fst x)) out) (map snd out)) = 0%N.
 Proof. exact lcase_sig_model. Qed.
-
-(* FINDING (code as it is): a bind with protocol version < 2 is refused before the name and
-   the password are recorded - the event of that attempt carries neither *)
-Theorem C12_ldap_old_version_event_refuted :
-  exists creds reqs,
-    forallb bind_version_ok reqs = false /\
-    let out := ldap_session creds reqs in
-    map snd out = [mkLE T_BIND None None] /\
-    lcase_sig (mkLCase 0 creds reqs (map (fun x => snd (fst x)) out) (map snd out))
-      = SIG_LDAP_OLDVER_EVENT.
-Proof. exact ldap_old_version_event_refuted. Qed.
 
 (* ---------------- ftp ---------------- *)
 
@@ -181,6 +184,15 @@ Example C12_ldap_nonvacuous :
   = [Some (9, 53); Some (1, 49); Some (9, 53); Some (1, 0); Some (7, 53); Some (1, 0); Some (11, 0)]%N.
 Proof. vm_compute. reflexivity. Qed.
 
+(* a version-1 bind is refused but recorded with name and password; a SASL bind is handed to
+   the catch-all with only the evaluated name recorded *)
+Example C12_ldap_old_version_nonvacuous :
+  let dn := [99;110;61]%N ++ b_root ++ [44;100;99;61;120]%N in
+  ldap_session [b_root_root] [LBind 1 dn b_root; LBindOther 3 dn]
+  = [(LBind 1 dn b_root, Some (1, 2), mkLE T_BIND (Some b_root) (Some b_root));
+     (LBindOther 3 dn, Some (0, 53), mkLE T_BIND (Some b_root) None)]%N.
+Proof. vm_compute. reflexivity. Qed.
+
 Example C12_ftp_nonvacuous :
   let mkd := [77;75;68;32;47;109]%N in                                   (* "MKD /m" *)
   let user := [85;83;69;82;32]%N ++ S_anonymous in                       (* "USER anonymous" *)
@@ -199,10 +211,11 @@ Print Assumptions C12_ssh_attempts_recorded.
 Print Assumptions C12_ssh_check_accepts_model.
 Print Assumptions C12_ldap_bind_success_iff.
 Print Assumptions C12_ldap_old_version_is_protocol_error.
+Print Assumptions C12_ldap_bind_event_fields.
+Print Assumptions C12_ldap_history_bind_event_fields.
 Print Assumptions C12_ldap_gated.
 Print Assumptions C12_ldap_entries_without_colon_ignored.
-Print Assumptions C12_ldap_check_accepts_model_outside_finding.
-Print Assumptions C12_ldap_old_version_event_refuted.
+Print Assumptions C12_ldap_check_accepts_model.
 Print Assumptions C12_ftp_pass_iff.
 Print Assumptions C12_ftp_check_passwd_iff.
 Print Assumptions C12_ftp_only_anonymous.
